@@ -144,8 +144,11 @@ def search_alpha_s(chk, r, n):
         if fns != "ZM-VFNS":
             b0 = 11 - 2 * nfff / 3
             for Q, g in zip(Qs, got):
-                lo = aref / (1 + aref * b0 / (4 * math.pi) * math.log(Q * Q / (Qref * Qref)))
-                ok = ok and abs(g - lo) <= 1e-7 * lo
+                den = 1 + aref * b0 / (4 * math.pi) * math.log(Q * Q / (Qref * Qref))
+                if den <= 0.2:
+                    continue  # at or beyond the Landau pole of this (unphysical) reference value: no coupling to compare
+                lo = aref / den
+                ok = ok and abs(g - lo) <= 1e-7 * abs(lo)
             detail["rule"] = "LO analytic running with nf=NfFF"
         chk.search_case("alpha_s_from_theory_card", ok, what=f"{fns} NfFF={nfff}: alpha_s used by apply_pdf does not follow the theory card", data=detail, sample=detail)
 
